@@ -33,7 +33,7 @@ Definition flows (cl : cname) (c : sctx K) (v ib : vec) : list flow :=
   | cI => [(p0 c, p1 c, fopp (par c pIsc))]
   | cVCCS => [(p0 c, p1 c, fopp (fmul (par c pArg0) (dV23 c v)))]
   | cCCCS => [(p0 c, p1 c, fmul (par c pArg1) (ib (bctrl c)))]
-  | cCCVS => (p0 c, p1 c, ib (bown c)) :: (if ctrl_is_vsrc c then [] else [(c0 c, c1 c, ib (bctrl c))])
+  | cCCVS => [(p0 c, p1 c, ib (bown c))]
   | cTF => [(p0 c, p1 c, ib (bown c)); (p2 c, p3 c, fopp (fmul (par c pAlpha) (ib (bown c))))]
   | cGY => [(p0 c, p1 c, ib (bown c)); (p2 c, p3 c, ib (bextra c))]
   | cTL => [(p0 c, p1 c, ib (bown c));
